@@ -141,6 +141,10 @@ theorem waitReady_keeps (arg n : Nat) : Keeps (waitReady B arg n) := by
     unfold waitReady
     exact waitReadyStep_keeps B arg _ (fun k hk => by cases hk; exact ih)
 
+theorem stopWrite_keeps : Keeps (stopWrite B) := by
+  unfold stopWrite
+  keeps_tac [waitNotBusy_keeps B _, writeByte_keeps B _, readByte_keeps B]
+
 theorem write_keeps (blocks : List Bytes) (idx : Nat) : Keeps (write B blocks idx) := by
   unfold write
   keeps_tac [cardCommand_keeps B _ _, cardAcmd_keeps B _ _, waitNotBusy_keeps B _, writeData_keeps B _ _,
